@@ -557,4 +557,65 @@ func specSecLen(cmdLen int, descLoopLen int, stuffing int) int { return 13 + cmd
 //@     invariant specDescsAllOK(s.descriptors) && s.commandInfo == old(s.commandInfo)
 //@     decreases len(s.descriptors) - rangeindex
 
+
+// ---------------------------------------------------------------- C10: state tracker (Open, Close)
+
+// verifSnapPtrs returns an independent copy of a descriptor list (used under old(...)).
+func verifSnapPtrs(b []SegmentationDescriptor) []SegmentationDescriptor {
+	c := make([]SegmentationDescriptor, len(b))
+	copy(c, b)
+	return c
+}
+
+// specStateOK: representation invariant of the tracker: the hidden breakaway, if any, is an
+// element of the open list, and every open descriptor is one of the library's.
+func specStateOK(s *state) bool {
+	return s != nil && (!s.inBlackout || (0 <= s.blackoutIdx && s.blackoutIdx < len(s.open))) &&
+		verifForall(0, len(s.open), func(k int) bool { return segOf(s.open[k]) != nil && specWFDesc(segOf(s.open[k])) })
+}
+
+// specRemovedAt(nw, od, c): nw is od with one occurrence of c removed, the others in order.
+func specRemovedAt(nw, od []SegmentationDescriptor, c SegmentationDescriptor) bool {
+	return verifExists(0, len(od), func(i int) bool {
+		return c == od[i] &&
+			verifForall(0, i, func(k int) bool { return nw[k] == od[k] }) &&
+			verifForall(i, len(nw), func(k int) bool { return nw[k] == od[k+1] })
+	})
+}
+
+func stOfState(x State) *state {
+	p, _ := x.(*state)
+	return p
+}
+
+//@ func NewState() State
+//@   props C10 C05
+//@   ensures stOfState(result) != nil && fresh(stOfState(result)) && specStateOK(stOfState(result)) && len(stOfState(result).open) == 0 && !stOfState(result).inBlackout
+//@   modifies nothing
+
+//@ func (s *state) Open() []SegmentationDescriptor
+//@   props C10 C05
+//@   requires specStateOK(s)
+//@   ensures !s.inBlackout ==> len(result) == len(s.open) && forall k in 0..len(result) :: result[k] == s.open[k]
+//@   ensures s.inBlackout ==> len(result) == len(s.open)-1
+//@   ensures s.inBlackout ==> forall k in 0..s.blackoutIdx :: result[k] == s.open[k]
+//@   ensures s.inBlackout ==> forall k in s.blackoutIdx..len(result) :: result[k] == s.open[k+1]
+//@   ensures len(result) == 0 || fresh(result)
+//@   modifies nothing
+
+//@ func (s *state) Close(desc SegmentationDescriptor) (closed []SegmentationDescriptor, err error)
+//@   props C10 C05
+//@   requires specStateOK(s) && segOf(desc) != nil && specWFDesc(segOf(desc))
+//@   ensures specStateOK(s)
+//@   ensures err != nil ==> err == gots.ErrSCTE35DescriptorNotFound && len(closed) == 0 && len(s.open) == old(len(s.open)) && s.inBlackout == old(s.inBlackout) && s.blackoutIdx == old(s.blackoutIdx)
+//@   ensures err != nil ==> forall k in 0..len(s.open) :: s.open[k] == old(verifSnapPtrs(s.open))[k] && !specEqual(segOf(desc), segOf(s.open[k]))
+//@   ensures err == nil ==> len(closed) == 1 && fresh(closed) && len(s.open) == old(len(s.open))-1 && segOf(closed[0]) != nil && specEqual(segOf(desc), segOf(closed[0]))
+//@   ensures err == nil ==> specRemovedAt(s.open, old(verifSnapPtrs(s.open)), closed[0])
+//@   modifies *s, s.open[*]
+//@   loop 1 (i int)
+//@     invariant specStateOK(s) && -1 <= i && i < len(s.open) && len(s.open) == old(len(s.open)) && !verifSeparate(s.open, old(s.open)) && s.inBlackout == old(s.inBlackout) && s.blackoutIdx == old(s.blackoutIdx)
+//@     invariant forall k in 0..len(s.open) :: s.open[k] == old(verifSnapPtrs(s.open))[k]
+//@     invariant forall k in i+1..len(s.open) :: !specEqual(segOf(desc), segOf(s.open[k]))
+//@     decreases i + 1
+
 var _ = bytes.MinRead
